@@ -1,7 +1,7 @@
 CONSTANTS P = 103  A = 0  B = 5  Gx = 2  Gy = 42  N = 97
           SecLens <- LensQ
           Stage = "sec"
-          SecPfx <- AllBytes  SecXs <- AllBytes  SecYs <- AllBytes  SecLongYs = {0, 12, 255} DerPos <- PosNone  DerExt <- One0  DerExtLen = 0
+          SecPfx <- SlicePfx32  SecXs <- AllBytes  SecYs <- AllBytes  SecLongYs = {0, 12, 255} DerPos <- PosNone  DerExt <- One0  DerExtLen = 0
 SPECIFICATION Spec
 INVARIANT NoBad
 CHECK_DEADLOCK FALSE
